@@ -46,7 +46,7 @@ def Q(m, e):
 # GEN families (constants of StrMathGen)
 
 FAMILIES = ["sub", "byte", "unary", "char", "findp", "findl", "fmtd", "fmtx", "fmtc", "fmts", "math1", "math2", "maxmin",
-            "fmtgrid", "ldexpw", "powsp", "arith", "consts"]
+            "fmtgrid", "ldexpw", "powsp", "arith", "consts", "logs", "fmtbad"]
 
 
 def gen_runs(tier):
@@ -64,7 +64,7 @@ def gen_runs(tier):
         "G2M": "12" if th else "8", "G2Neg": "3", "G2Hi": "2" if th else "1",
     }
     split = [["sub", "byte"], ["findp", "findl", "unary"],
-             ["char", "fmtd", "fmtx", "fmtc", "fmts", "math1", "math2", "maxmin"], ["fmtgrid", "ldexpw", "powsp", "arith", "consts"]] if th else [FAMILIES]
+             ["char", "fmtd", "fmtx", "fmtc", "fmts", "math1", "math2", "maxmin"], ["fmtgrid", "ldexpw", "powsp", "arith", "consts", "logs", "fmtbad"]] if th else [FAMILIES]
     out = []
     for fams in split:
         c = dict(consts)
@@ -235,6 +235,8 @@ def case_key(f, args, exp, obs):
             return "C15:format:argument-conversion"
         ds, pct = parse_format(fmt)
         nargs = len(args) - 1
+        if exp[0] == "err" and obs[0] == "ok" and any(d["conv"] not in list("cdiouxXeEfgGqs") for d in ds):
+            return "C15:format:invalid-option-accepted"
         if nargs < len(ds) and exp[0] == "err":
             return "C15:format:missing-argument-not-an-error"
         if nargs > len(ds) and pct > 0:
@@ -288,6 +290,12 @@ def case_key(f, args, exp, obs):
         return "C15:format:%%%s" % c
     if f in ("huge", "pi"):
         return "C15:constant:math.%s" % f
+    if f == "log10" and args and args[0][0] == "p10":
+        return "C15:log10:power-of-ten-inexact"
+    if f in ("deg", "rad"):
+        if obs[0] == "ok" and obs[1] and obs[1][0][0] in ("inf", "nan") and args and args[0][0] in ("n", "q"):
+            return "C15:%s:intermediate-overflow" % f
+        return "C15:%s:not-the-correctly-rounded-%s" % (f, "x/(PI/180)" if f == "deg" else "x*(PI/180)")
     if f == "mod" and exp[0] == "ok" and obs[0] == "ok" and not any(a[0] == "nz" for a in args):
         return "C15:mod:differs-from-fmod"
     if f in ("pow", "op^") and len(args) == 2 and (args[0][0] in ("nz", "inf", "nan") or args[1][0] in ("nz", "inf", "nan")
@@ -332,6 +340,10 @@ def lua_literal(t):
         return "0/0"
     if t[0] == "nz":
         return "-0"
+    if t[0] == "p10":
+        return "1e%d" % t[1]
+    if t[0] == "w":
+        return repr((-1 if t[1] else 1) * sum(l << (13 * i) for i, l in enumerate(t[2])) * 2.0 ** t[3])
     if t[0] == "b":
         return "true" if t[1] else "false"
     return t[0]
@@ -349,6 +361,8 @@ def lua_call(f, args):
 
 
 def show(res):
+    if res[0] == "degrad":
+        return "the correctly rounded " + ("x/(PI/180)" if res[1] else "x*(PI/180)")
     if res[0] != "ok":
         return res[0]
     return "(" + ", ".join(lua_literal(v) if v[0] not in ("x", "o") else str(v[1]) for v in res[1]) + ")"
@@ -470,6 +484,14 @@ def listed_calls():
         ["ldexp", [N(1), N(-5000)]], ["ldexp", [Q(1, -1), N(1024)]], ["ldexp", [N(1), N(-1022)]], ["ldexp", [N(3), N(-1075)]],
         ["ldexp", [N(3), N(-1076)]], ["ldexp", [N(-1), N(-1074)]], ["frexp", [Q(1, -1074)]], ["frexp", [Q(3, -1060)]], ["frexp", [Q(1, 1023)]],
         ["frexp", [Q(-1, -1074)]], ["ldexp", [Q(1, -1), N(-1021)]], ["ldexp", [Q(3, -2), N(-1058)]],
+        # Go-only directives must be errors, never text with %!(...)
+        F("[%v]", N(5)), F("[%[1]d]", N(5)), F("[%*d]", N(5), N(3)), F("[%T]", N(5)), F("[%t]", ["b", True]), F("[%p]", N(5)),
+        F("[%b]", N(5)), F("[%U]", N(65)), F("[%F]", N(1)), F("[%a]", N(1)), F("[%n]", N(1)), F("[%5v]", S("a")), F("%d %v", N(1), N(2)),
+        F("[%.*f]", N(2), N(1)), F("%", N(1)), F("abc%"), F("%-"), F("%5"), F("%.3"),
+        # deg / rad: one rounding of x / c resp. x * c with c = PI/180, also where x*180 or x*PI overflows
+        ["deg", [Q(3, 1015)]], ["deg", [Q(-3, 1015)]], ["deg", [Q(1, 1016)]], ["rad", [Q(5, 1021)]], ["rad", [Q(-1, 1023)]], ["rad", [Q(7, 1020)]],
+        ["deg", [N(1)]], ["deg", [N(180)]], ["rad", [N(180)]], ["rad", [N(90)]], ["deg", [Q(1, -1)]], ["rad", [N(1)]], ["deg", [N(0)]], ["rad", [["nz"]]],
+        ["deg", [["inf", 1]]], ["rad", [["inf", -1]]], ["deg", []], ["rad", [S("x")]], ["deg", [S("180")]],
         # the format string itself given as a number
         ["format", [N(12)]], ["format", [N(12), N(1)]], ["format", []], ["format", [NIL]],
         # subject conversions
@@ -636,6 +658,10 @@ def rand_call(rng):
         if f in ("max", "min") and ["nan"] in (a, b):
             a, b = ["nz"], N(0)
         return [f, [a, b]]
+    if rng.random() < 0.12:
+        m = rng.choice([rng.randint(1, 1000), rng.randint(1, 1000000), 1, 3, 45, 90, 180, 360]) * rng.choice([1, -1])
+        e = rng.choice([0, 0, 0, -1, -3, rng.randint(-40, 40), rng.randint(-900, 990), rng.randint(990, 1016 - abs(m).bit_length())])
+        return [rng.choice(["deg", "rad"]), [Q(m, e)]]
     f = rng.choice(["floor", "ceil", "abs", "modf", "frexp", "sqrt", "fmod", "pow", "ldexp", "max", "min"])
     if f in ("floor", "ceil", "abs", "modf", "frexp"):
         x = rand_dyadic(rng)
